@@ -55,6 +55,9 @@ func (c *CallbackCtl) Reset() {
 }
 
 func (c *CallbackCtl) hit(kind string) error {
+	if ey := elemYield; ey != nil && (kind == "encode" || kind == "tiencode" || kind == "decode") {
+		ey(kind)
+	}
 	if c == nil {
 		return nil
 	}
